@@ -75,4 +75,24 @@ func (b *badgerDB) readRaw(key string) (string, bool, error) {
 	return out, found, err
 }
 
+// readValue returns the value stored under key and whether the key exists.
+func (b *badgerDB) readValue(key string) (tla.Value, bool, error) {
+	var out tla.Value
+	found := false
+	err := b.db.View(func(txn *badger.Txn) error {
+		item, err := txn.Get([]byte(key))
+		if err == badger.ErrKeyNotFound {
+			return nil
+		}
+		if err != nil {
+			return err
+		}
+		found = true
+		return item.Value(func(val []byte) error {
+			return gob.NewDecoder(bytes.NewBuffer(val)).Decode(&out)
+		})
+	})
+	return out, found, err
+}
+
 func (b *badgerDB) close() {}
